@@ -1287,6 +1287,19 @@ func (i valueImporter) importArrayValue(
 		if err != nil {
 			return nil, err
 		}
+
+		// The array is created with the expected array type,
+		// and the interpreter relies on the elements of an array having the element type of the array,
+		// e.g. when the array is transferred into a parent container, which happens before
+		// the conformance of the whole argument is checked. Ensure the element has the expected type.
+		if elementType != nil &&
+			!interpreter.IsSubTypeOfSemaType(inter, value.StaticType(inter), elementType) {
+
+			return nil, &MalformedValueError{
+				ExpectedType: elementType,
+			}
+		}
+
 		values[elementIndex] = value
 	}
 
